@@ -131,6 +131,24 @@ func sxSubst(n *sx, m map[string]*sx) *sx {
 	return out
 }
 
+// expandLimit bounds the size (in nodes, counted as a tree) of a term that is still expanded.
+const expandLimit = 60000
+
+// sxSize counts the nodes of n as a tree, giving up at limit.
+func sxSize(n *sx, limit int) int {
+	if n.isAtom() {
+		return 1
+	}
+	c := 1
+	for _, k := range n.kids {
+		c += sxSize(k, limit-c)
+		if c >= limit {
+			return limit
+		}
+	}
+	return c
+}
+
 // sxSimp applies the slice accessor rules sptr/slen/scap (mkslice p l c) = p/l/c bottom-up.
 func sxSimp(n *sx) *sx {
 	if n.isAtom() {
@@ -566,6 +584,7 @@ func preInstantiate(script string) (string, bool) {
 		}
 	}
 	expand := func(n *sx, j int) *sx {
+		orig := n
 		m := defs
 		if len(alts) > 0 {
 			m = map[string]*sx{}
@@ -581,11 +600,19 @@ func preInstantiate(script string) (string, bool) {
 			}
 		}
 		for d := 0; d < 4; d++ {
+			// names defined in terms of other names make the expansion grow geometrically
+			// (struct values built field by field); stop before it gets out of hand
+			if sxSize(n, expandLimit) >= expandLimit {
+				break
+			}
 			r := sxSubst(n, m)
 			if r == n {
 				break
 			}
 			n = r
+		}
+		if sxSize(n, expandLimit*4) >= expandLimit*4 {
+			return orig
 		}
 		return sxSimp(n)
 	}
